@@ -83,7 +83,11 @@ def r17_1_2_5(ctx: Ctx):
     for q in qs + [ev.methods[m] for m in ('SetBounds', '__init__') if m in ev.methods]:
         reach = pta.reachable([q])
         args = set()
+        from ..pta import SCALAR_ANNOTATIONS, _ann_text
+        scalar = {a.arg for a in q.params if a.annotation is not None and _ann_text(a.annotation) in SCALAR_ANNOTATIONS}
         for pn in q.param_names[1:]:
+            if pn in scalar:
+                continue      # declared a number: nothing to alias or to write into
             args |= {o for o in pta.local(q, pn) if o.kind in ('param', 'field', 'ndarray', 'list')}
         argreach = pta.reach_objs(args)
         for m in E.mutations_in(ctx, reach):
